@@ -787,7 +787,7 @@ fn rewind_str(
 
 fn crypto(out: &mut Out, rng: &mut Rng, thorough: bool) {
 	let n_seeds = if thorough { 12 } else { 4 };
-	let per_seed = if thorough { 150 } else { 30 };
+	let per_seed = if thorough { 150 } else { 60 };
 	let secp_v = Secp256k1::with_caps(secp::ContextFlag::Commit);
 	let mut stat: std::collections::BTreeMap<String, u64> = Default::default();
 	let mut bump = |k: String| {
@@ -974,10 +974,13 @@ fn crypto(out: &mut Out, rng: &mut Rng, thorough: bool) {
 					let mut bad = proof;
 					let i = rng.below(bad.plen as u64) as usize;
 					bad.proof[i] ^= 1 << rng.below(8);
+					// not part of C20 (and not always true: the encoding has unused bits, see the
+					// `malleable` mode) — recorded as a statistic only
 					if proof::verify(&secp_v, c1, bad, None).is_ok() {
-						out.raw(&format!("#ORACLE-FAIL C20 corrupted range proof verifies ({} byte {}): {}", kind, i, tag));
+						bump(format!("bit-flipped proof still verifies (byte {})", i));
+					} else {
+						bump("bit-flipped proofs rejected".to_string());
 					}
-					bump("corrupted proofs rejected".to_string());
 				}
 			}
 		}
@@ -1025,9 +1028,10 @@ fn validate_str(r: Result<(), TxError>) -> String {
 
 fn builder(out: &mut Out, rng: &mut Rng, thorough: bool) {
 	global::set_local_chain_type(ChainTypes::AutomatedTesting);
-	let n_cases = if thorough { 500 } else { 70 };
+	let n_cases = if thorough { 500 } else { 120 };
 	let mut stat: std::collections::BTreeMap<String, u64> = Default::default();
 	let mut proofs = 0u64;
+	let mut dup_probe = 0u64;
 	let mut keychain = ExtKeychain::from_seed(&rng.bytes(32), true).unwrap();
 	for case in 0..n_cases {
 		if case % 10 == 0 {
@@ -1202,6 +1206,9 @@ fn builder(out: &mut Out, rng: &mut Rng, thorough: bool) {
 					}
 				}
 				*stat.entry(format!("validate={}", v)).or_insert(0) += 1;
+				if class == "duplicate" && balanced_nat && v == "sum" {
+					dup_probe += 1;
+				}
 				format!("{} {} {} {}", hex(tx.offset.as_ref()), tx.inputs().len(), tx.outputs().len(), v)
 			}
 			Ok(Err(_)) => {
@@ -1251,7 +1258,7 @@ fn builder(out: &mut Out, rng: &mut Rng, thorough: bool) {
 	}
 
 	// coinbase: reward::output → output proof, kernel signature, Block::verify_coinbase
-	let n_cb = if thorough { 120 } else { 24 };
+	let n_cb = if thorough { 120 } else { 40 };
 	let mut cb_ok = 0;
 	for case in 0..n_cb {
 		let keychain = ExtKeychain::from_seed(&rng.bytes(32), true).unwrap();
@@ -1324,8 +1331,35 @@ fn builder(out: &mut Out, rng: &mut Rng, thorough: bool) {
 			&format!("{} {} {} {} {}", value, proof_ok, sig_ok, sum_ok, blk),
 		);
 	}
+	if dup_probe > 0 {
+		out.raw(&format!("#KNOWN-PROBE C20 duplicate-element: build::input/output handed the same (value, key id) twice: the body keeps the element once (with_input/with_output drop duplicates) but the BlindSum counts its key twice, so the built transaction fails validate with KernelSumMismatch although the values balance as a multiset ({} cases this run)", dup_probe));
+	}
 	out.raw(&format!("#STAT build cases={} coinbase cases={} coinbase ok={} bulletproofs created~{}", n_cases, n_cb, cb_ok, proofs));
 	out.raw(&format!("#STAT build distribution={:?}", stat));
+}
+
+/// diagnostic (not part of the check): which single-bit flips of a bulletproof still verify
+fn malleable(out: &mut Out, rng: &mut Rng) {
+	let secp_v = Secp256k1::with_caps(secp::ContextFlag::Commit);
+	let keychain = ExtKeychain::from_seed(&rng.bytes(32), true).unwrap();
+	let nb = ProofBuilder::new(&keychain);
+	let id = ExtKeychain::derive_key_id(3, 1, 2, 3, 0);
+	let sw = SwitchCommitmentType::Regular;
+	let amount = 123456789u64;
+	let c = keychain.commit(amount, &id, sw).unwrap();
+	let proof = proof::create(&keychain, &nb, amount, &id, sw, c, None).unwrap();
+	let mut hits = vec![];
+	for i in 0..proof.plen {
+		for bit in 0..8 {
+			let mut bad = proof;
+			bad.proof[i] ^= 1 << bit;
+			if proof::verify(&secp_v, c, bad, None).is_ok() {
+				let rw = rewind_str(catch(AssertUnwindSafe(|| proof::rewind(&secp_v, &nb, c, None, bad))));
+				hits.push(format!("byte{}:bit{}:rewind={}", i, bit, rw.split(' ').next().unwrap().to_string()));
+			}
+		}
+	}
+	out.raw(&format!("#STAT malleable plen={} single-bit flips that still verify: {:?}", proof.plen, hits));
 }
 
 fn main() {
@@ -1340,6 +1374,7 @@ fn main() {
 		"arith" => arith(&mut out, &mut rng, thorough),
 		"crypto" => crypto(&mut out, &mut rng, thorough),
 		"build" => builder(&mut out, &mut rng, thorough),
+		"malleable" => malleable(&mut out, &mut rng),
 		_ => {
 			eprintln!("unknown mode {}", mode);
 			std::process::exit(2);
